@@ -571,7 +571,14 @@ impl CheckPoints {
                 "expect starting from {} but got {}",
                 next_number, start_number
             );
-            return Err(StatusCode::CheckPointsIsUnexpected.with_context(errmsg));
+            // The check points could be requested again (by the timer) before the response of
+            // the previous request is received, so a response which starts from an earlier check
+            // point is just out-of-date, the peer doesn't do anything wrong.
+            return if start_number < next_number {
+                Err(StatusCode::Ignore.with_context(errmsg))
+            } else {
+                Err(StatusCode::CheckPointsIsUnexpected.with_context(errmsg))
+            };
         }
         let prev_last_check_point = &self.inner[self.inner.len() - 1];
         let curr_first_check_point = &check_points[0];
